@@ -929,3 +929,311 @@ Proof.
       apply find_some in FC. destruct FC as [Hc Ec]. apply N.eqb_eq in Ec.
       apply safe_wal_saved; assumption.
 Qed.
+
+(* ------------------------------------------------------------------ crash, drop, restore *)
+Lemma safe_add_dropped w ids : Safe w -> Safe (add_dropped w ids).
+Proof.
+  intro S. destruct S. constructor; cbn [add_dropped g_fs g_dbs g_handles g_dropped g_nextdir]; try assumption.
+  - intros i x Hx L. eapply safe_db_mono'; [apply (sf_db0 _ _ Hx L)|apply fs_mono_refl|reflexivity|intros id H; apply in_or_app; auto].
+  - intros id D Hh ND. apply sf_handles0; [exact Hh|]. intro H. apply ND. apply in_or_app. auto.
+Qed.
+
+Lemma nth_app_one {A} (l : list A) x i y : nth_error (l ++ [x]) i = Some y -> nth_error l i = Some y \/ (i = length l /\ y = x).
+Proof.
+  intro H. destruct (Nat.lt_ge_cases i (length l)) as [Lt|Ge].
+  - rewrite nth_error_app1 in H by exact Lt. auto.
+  - rewrite nth_error_app2 in H by exact Ge. destruct (i - length l)%nat eqn:E; cbn in H.
+    + inversion H. right. split; [lia|reflexivity].
+    + destruct n; discriminate.
+Qed.
+
+Lemma safe_add_db w x b :
+  Safe w ->
+  (x_state x = Live ->
+     safe_db (g_fs w) (g_handles w) (g_dropped w) x /\
+     (forall i y, nth_error (g_dbs w) i = Some y -> x_state y = Live -> x_dir y <> x_dir x) /\
+     (x_dir x < (if b : bool then g_nextdir w + 1 else g_nextdir w))) ->
+  Safe (add_db w x b).
+Proof.
+  intros S H. destruct S. constructor; cbn [add_db g_fs g_dbs g_handles g_dropped g_nextdir].
+  - intros i y Hy L. destruct (nth_app_one _ _ _ _ Hy) as [Hy'|[_ ->]]; [apply (sf_db0 _ _ Hy' L)|apply H; exact L].
+  - exact sf_handles0.
+  - intros i j a c Ha Hc La Lc E.
+    destruct (nth_app_one _ _ _ _ Ha) as [Ha'|[Ia ->]]; destruct (nth_app_one _ _ _ _ Hc) as [Hc'|[Ic ->]].
+    + eapply sf_writer0; eassumption.
+    + exfalso. destruct (H Lc) as [_ [NW _]]. exact (NW _ _ Ha' La E).
+    + exfalso. destruct (H La) as [_ [NW _]]. apply (NW _ _ Hc' Lc). congruence.
+    + congruence.
+  - intros i y Hy L. destruct (nth_app_one _ _ _ _ Hy) as [Hy'|[_ ->]].
+    + specialize (sf_dirs0 _ _ Hy' L). destruct b; lia.
+    + apply H. exact L.
+  - intros id D Hh. specialize (sf_hdirs0 _ _ Hh). destruct b; lia.
+  - exact sf_kinds0.
+Qed.
+
+Lemma replay_core_fields o es : forall d, d_tables (replay_core o d es) = d_tables d /\ w_id (d_wal (replay_core o d es)) = w_id (d_wal d).
+Proof.
+  induction es as [|e es IH]; intro d; [auto|]. cbn [replay_core]. destruct (owns o (e_key e)); [|apply IH].
+  destruct (IH (fst (db_write d (e_key e) (e_del e) (e_val e)))) as [A B]. rewrite A, B, db_write_tables, db_write_walid. auto.
+Qed.
+
+Lemma handle_dir_in w id hd : handle_dir w id = Some hd -> In (id, hd) (g_handles w).
+Proof.
+  unfold handle_dir. destruct (find (fun h => fst h =? id) (g_handles w)) as [[i D]|] eqn:F; [|discriminate].
+  intro H. inversion H; subst. apply find_some in F. destruct F as [F E]. cbn in E. apply N.eqb_eq in E. subst. exact F.
+Qed.
+
+Lemma safe_step_restore w nd id same o nb : Safe w -> step_ok w (ORestore nd id same o nb) -> Safe (step w (ORestore nd id same o nb)).
+Proof.
+  intros S [ND SAME]. cbn [step].
+  set (dir := if same then match handle_dir w id with Some hd => hd | None => 0 end else g_nextdir w).
+  destruct (open_from w id dir o nb) as [code|x] eqn:OP.
+  - apply safe_add_db; [exact S|]. cbn. discriminate.
+  - (* the handle could be opened *)
+    unfold open_from in OP. destruct (handle_dir w id) as [hd|] eqn:HD; [|discriminate].
+    destruct (fs_get (g_fs w) (hd, 2, 0)) as [[| |docs]|] eqn:GF; try discriminate.
+    destruct (find_doc docs id) as [dd|] eqn:FD; [|discriminate].
+    destruct (fs_get (g_fs w) (dc_wal dd)) as [[|content|]|] eqn:GW; try discriminate.
+    destruct (wal_read content (dc_after dd)) as [| |es] eqn:WR; try discriminate.
+    destruct (db_restore (g_mem w) (g_walmax w) o (map (table_of_doc (g_fs w)) (dc_tables dd)) (num_of (dc_wal dd)) es) as [core rots] eqn:DR.
+    inversion OP; subst x. clear OP.
+    set (ts := map (table_of_doc (g_fs w)) (dc_tables dd)) in *.
+    set (gone := if same then map fst (filter (fun h => (snd h =? dir) && negb (fst h =? id)) (g_handles w)) else []).
+    assert (d_tables core = ts /\ w_id (d_wal core) = num_of (dc_wal dd) + 1) as [CT CW].
+    { pose proof (db_replay_core o es (mkDb (tables_latest ts) [] [] ts (tables_latest ts) (wal_new (num_of (dc_wal dd) + 1)) (g_mem w) (g_walmax w))) as E.
+      unfold db_restore in DR. rewrite DR in E. cbn [fst] in E. rewrite E.
+      destruct (replay_core_fields o es (mkDb (tables_latest ts) [] [] ts (tables_latest ts) (wal_new (num_of (dc_wal dd) + 1)) (g_mem w) (g_walmax w))) as [A B].
+      rewrite A, B. auto. }
+    pose proof (handle_dir_in _ _ _ HD) as HIN.
+    pose proof (safe_add_dropped w gone S) as S0.
+    assert (~ In id (g_dropped w ++ gone)) as ND'.
+    { intro H. apply in_app_or in H. destruct H as [H|H]; [exact (ND H)|]. unfold gone in H. destruct same; [|destruct H].
+      apply in_map_iff in H. destruct H as [[i D] [Ei Hf]]. cbn in Ei. subst i. apply filter_In in Hf. destruct Hf as [_ Hf].
+      cbn in Hf. rewrite N.eqb_refl in Hf. rewrite andb_false_r in Hf. discriminate. }
+    destruct (sf_handles _ S0 id hd HIN ND') as [docs' [dd' [G1 [G2 G3]]]]. cbn [add_dropped g_fs] in G1, G3.
+    rewrite GF in G1. inversion G1; subst docs'. rewrite FD in G2. inversion G2; subst dd'.
+    destruct (sf_kinds w S _ _ dd GF (proj1 (find_doc_in _ _ _ FD))) as [KW KT].
+    apply safe_add_db; [exact S0|]. intros _.
+    destruct (after_rotations_fields (mkW core dir o nb
+        (fold_right (fun t a => N.max (num_of (td_name t) + 1) a) 0 (dc_tables dd)) [mkCk (dc_id dd) ts (dc_wal dd) content (dc_after dd) (dc_lastseq dd)] []
+        FNone 0 CNone 0 [] (map (fun t => mkObj (td_name t) true (td_lo t) (td_hi t)) (dc_tables dd)) Live) rots)
+      as [Ec [Ed [Ek [Ep [Et [Eo [Es [Em Ef]]]]]]]].
+    set (x0 := mkW core dir o nb (fold_right (fun t a => N.max (num_of (td_name t) + 1) a) 0 (dc_tables dd))
+                   [mkCk (dc_id dd) ts (dc_wal dd) content (dc_after dd) (dc_lastseq dd)] [] FNone 0 CNone 0 []
+                   (map (fun t => mkObj (td_name t) true (td_lo t) (td_hi t)) (dc_tables dd)) Live) in *.
+    assert (map t_name ts = map td_name (dc_tables dd)) as NT by (unfold ts; rewrite map_map; reflexivity).
+    split; [|split].
+    + (* the invariant of the new object *)
+      assert (safe_db (g_fs w) (g_handles w) (g_dropped w ++ gone) x0) as SX0.
+      { constructor; unfold recs; cbn [x0 x_ckpts x_pending x_dir x_objs x_cktasks x_core app].
+        - intros n Hn. apply G3. apply in_rn_parts in Hn. unfold recs in Hn. cbn in Hn. rewrite CT, !app_nil_r in Hn. unfold doc_files. right.
+          rewrite <- NT. destruct Hn as [Hn|[Hn|[[]|[]]]]; exact Hn.
+        - intros dcs id0 d0 Gd Fd Hh ND0. exists (mkCk (dc_id dd) ts (dc_wal dd) content (dc_after dd) (dc_lastseq dd)). split; [left; reflexivity|].
+          destruct same.
+          + unfold dir in Gd, Hh. rewrite GF in Gd. inversion Gd; subst dcs.
+            destruct (N.eq_dec id0 id) as [->|NE].
+            * rewrite FD in Fd. inversion Fd; subst d0. unfold agrees. cbn. auto.
+            * exfalso. apply ND0. apply in_or_app. right. unfold gone. apply in_map_iff. exists (id0, hd). split; [reflexivity|].
+              apply filter_In. split; [exact Hh|]. cbn. unfold dir. rewrite N.eqb_refl. cbn. apply negb_true_iff. apply N.eqb_neq. exact NE.
+          + exfalso. unfold dir in Hh. pose proof (sf_hdirs w S _ _ Hh). lia.
+        - constructor; [intros []|constructor].
+        - constructor; [intros []|constructor].
+        - intros c [<-|[]]. exact KW.
+        - intros ob Hob. apply in_map_iff in Hob. destruct Hob as [t [<- Ht]]. cbn. apply KT. exact Ht.
+        - intros n Hn. apply in_rn_parts in Hn. unfold recs in Hn. cbn in Hn. rewrite CT, !app_nil_r, NT in Hn.
+          assert (In n (map td_name (dc_tables dd))) as Hn' by (destruct Hn as [Hn|[Hn|[[]|[]]]]; exact Hn).
+          apply in_map_iff in Hn'. destruct Hn' as [t [<- Ht]]. apply KT. exact Ht.
+        - intros c [<-|[]] _. cbn. rewrite CW. unfold num_of. lia.
+        - intros id0 []. }
+      eapply safe_db_step; [exact SX0|apply fs_mono_refl|apply ck_same_refl|exact Ed|exact Ek|exact Ep| | | |].
+      * rewrite Et. intros id0 [].
+      * rewrite Eo. auto.
+      * intros n Hn. left. eapply rn_after_rotations. exact Hn.
+      * rewrite Ec. lia.
+    + (* no other live object in that directory *)
+      cbn [add_dropped g_dbs]. rewrite Ed. cbn [x0 x_dir]. intros i y Hy Ly E.
+      destruct same.
+      * unfold dir in E. exact (SAME eq_refl hd i y eq_refl Hy Ly E).
+      * unfold dir in E. pose proof (sf_dirs w S _ _ Hy Ly). lia.
+    + rewrite Ed. cbn [x0 x_dir add_dropped g_nextdir]. destruct same; cbn [negb].
+      * unfold dir. apply (sf_hdirs w S _ _ HIN).
+      * unfold dir. lia.
+Qed.
+
+(* ------------------------------------------------------------------ the collection *)
+Definition gc_names (w : world) (x : wdb) : list fname := match x_state x with Crashed => [] | _ => C09_Gc.gc_one w x end.
+Definition gc_obj (x : wdb) : wdb :=
+  match x_state x with
+  | Crashed => x
+  | _ => with_objs x (x_next x) (filter (fun o => mem_name (o_name o) (reachable_names x)) (x_objs x))
+  end.
+
+Lemma gc_fold w l : forall f done dels,
+  exists dels', fold_left (gc_db w) l (f, done, dels) = (fold_left fs_del (flat_map (gc_names w) l) f, done ++ map gc_obj l, dels').
+Proof.
+  induction l as [|x l IH]; intros f done dels.
+  - exists dels. cbn. rewrite app_nil_r. reflexivity.
+  - cbn [fold_left flat_map map]. unfold gc_db at 2. unfold gc_names at 1, gc_obj at 1, C09_Gc.gc_one.
+    destruct (x_state x) eqn:St.
+    + destruct (IH (fold_left fs_del (map o_name (filter (cleanup_deletes w x) (filter (fun o => negb (mem_name (o_name o) (reachable_names x))) (x_objs x)))) f)
+                   (done ++ [with_objs x (x_next x) (filter (fun o => mem_name (o_name o) (reachable_names x)) (x_objs x))])
+                   (dels ++ filter (fs_has f) (map o_name (filter (cleanup_deletes w x) (filter (fun o => negb (mem_name (o_name o) (reachable_names x))) (x_objs x))))))
+        as [dels' E].
+      exists dels'. rewrite E. rewrite fold_left_app, <- app_assoc. reflexivity.
+    + destruct (IH f (done ++ [x]) dels) as [dels' E]. exists dels'. rewrite E. cbn [app fold_left]. rewrite <- app_assoc. reflexivity.
+    + destruct (IH (fold_left fs_del (map o_name (filter (cleanup_deletes w x) (filter (fun o => negb (mem_name (o_name o) (reachable_names x))) (x_objs x)))) f)
+                   (done ++ [with_objs x (x_next x) (filter (fun o => mem_name (o_name o) (reachable_names x)) (x_objs x))])
+                   (dels ++ filter (fs_has f) (map o_name (filter (cleanup_deletes w x) (filter (fun o => negb (mem_name (o_name o) (reachable_names x))) (x_objs x))))))
+        as [dels' E].
+      exists dels'. rewrite E. rewrite fold_left_app, <- app_assoc. reflexivity.
+Qed.
+
+Lemma in_flat_map_nth {A B} (g : A -> list B) (l : list A) m :
+  In m (flat_map g l) -> exists j z, nth_error l j = Some z /\ In m (g z).
+Proof.
+  intro H. apply in_flat_map in H. destruct H as [z [Hz Hm]]. apply In_nth_error in Hz. destruct Hz as [j Hj]. exists j, z. auto.
+Qed.
+
+Lemma gc_obj_fields x : x_dir (gc_obj x) = x_dir x /\ x_state (gc_obj x) = x_state x /\ x_ckpts (gc_obj x) = x_ckpts x /\
+  x_pending (gc_obj x) = x_pending x /\ x_cktasks (gc_obj x) = x_cktasks x /\ x_core (gc_obj x) = x_core x /\
+  x_flush (gc_obj x) = x_flush x /\ x_comp (gc_obj x) = x_comp x /\ (forall o, In o (x_objs (gc_obj x)) -> In o (x_objs x)).
+Proof.
+  unfold gc_obj. destruct (x_state x) eqn:St; cbn; rewrite ?St; repeat split; auto; intros o H; apply filter_In in H; apply H.
+Qed.
+
+Lemma gc_one_unreachable w x m : In m (C09_Gc.gc_one w x) -> ~ In m (reachable_names x) /\ exists o, In o (x_objs x) /\ o_name o = m.
+Proof.
+  intro H. split; [apply (gc_spares_own_reachable w x m H)|]. unfold C09_Gc.gc_one in H. apply in_map_iff in H. destruct H as [o [E Ho]].
+  apply filter_In in Ho. destruct Ho as [Ho _]. apply filter_In in Ho. exists o. split; [apply Ho|exact E].
+Qed.
+
+Lemma safe_step_gc w : Safe w -> gc_ok w -> Safe (step w OGc).
+Proof.
+  intros S OK. cbn [step]. destruct (gc_fold w (g_dbs w) (g_fs w) [] []) as [dels' E]. rewrite E. cbn [app].
+  set (NS := flat_map (gc_names w) (g_dbs w)). set (f' := fold_left fs_del NS (g_fs w)).
+  assert (forall n, (forall j z m, nth_error (g_dbs w) j = Some z -> x_state z <> Crashed -> In m (C09_Gc.gc_one w z) -> m <> n) ->
+                    fs_get f' n = fs_get (g_fs w) n) as KEEP.
+  { intros n H. apply fold_del_get_other. apply mem_name_false. intros m Hm. unfold NS in Hm.
+    destruct (in_flat_map_nth _ _ _ Hm) as [j [z [Hz Hmz]]]. unfold gc_names in Hmz.
+    destruct (x_state z) eqn:St; [|destruct Hmz|]; apply (H j z m Hz); try exact Hmz; rewrite St; discriminate. }
+  destruct S. constructor; cbn [g_fs g_dbs g_handles g_dropped g_nextdir]; fold f'.
+  - intros i y Hy Ly. rewrite nth_error_map in Hy. destruct (nth_error (g_dbs w) i) as [z|] eqn:Hz; [|discriminate]. inversion Hy; subst y.
+    destruct (gc_obj_fields z) as [Ed [Es [Ek [Ep [Et [Ec [Ef [Em Eo]]]]]]]].
+    assert (x_state z = Live) as Lz by congruence.
+    pose proof (sf_db0 _ _ Hz Lz) as SZ. destruct SZ.
+    assert (forall n, In n (rn z) \/ (exists c id, In c (recs z) /\ c_id c = id /\ In (id, true) (x_cktasks z) /\ n = c_wal c) \/ n = (x_dir z, 2, 0) ->
+            fs_get f' n = fs_get (g_fs w) n) as PZ.
+    { intros n Hn. apply KEEP. intros j zj m Hj NC Hm Emn. subst m.
+      destruct (Nat.eq_dec j i) as [->|NE].
+      - rewrite Hz in Hj. inversion Hj; subst zj. destruct (gc_one_unreachable _ _ _ Hm) as [NR [ob [Hob Eob]]].
+        rewrite (reachable_live z Lz) in NR. destruct Hn as [Hn|[[c [id [Hc [_ [_ En]]]]]|Hn]].
+        + exact (NR Hn).
+        + specialize (sd_ko0 ob Hob). specialize (sd_kw0 c Hc). rewrite Eob, En in sd_ko0. lia.
+        + specialize (sd_ko0 ob Hob). rewrite Eob, Hn in sd_ko0. discriminate.
+      - apply (OK j zj n Hj NC Hm). left. exists i, z. repeat split; auto. }
+    assert (recs (gc_obj z) = recs z) as ER by (unfold recs; rewrite Ek, Ep; reflexivity).
+    assert (forall n, In n (rn (gc_obj z)) <-> In n (rn z)) as RE by (intro n; rewrite !in_rn_parts, ER, Ec, Ef, Em; tauto).
+    constructor; rewrite ?ER, ?Ed, ?Et, ?Ec; try assumption.
+    + intros n Hn. apply RE in Hn. rewrite (fs_has_get _ _ _ (PZ n (or_introl Hn))). apply sd_reach0. exact Hn.
+    + intros docs id dd Gd. rewrite PZ in Gd by auto. apply sd_docs0. exact Gd.
+    + intros o Ho. apply sd_ko0, Eo, Ho.
+    + intros n Hn. apply sd_kt0, RE, Hn.
+    + intros id H ND. destruct (sd_inflight0 id H ND) as [c [Hc [Eid Hf]]]. exists c. repeat split; try assumption.
+      assert (In (c_wal c) (rn z) \/ (exists c0 id0, In c0 (recs z) /\ c_id c0 = id0 /\ In (id0, true) (x_cktasks z) /\ c_wal c = c_wal c0) \/ c_wal c = (x_dir z, 2, 0)) as PW
+        by (right; left; exists c, id; auto).
+      rewrite (fs_has_get _ _ _ (PZ _ PW)). exact Hf.
+  - intros id D Hh ND. destruct (sf_handles0 id D Hh ND) as [docs [dd [G1 [G2 G3]]]]. exists docs, dd.
+    assert (forall n, In n (doc_files dd) \/ n = (D, 2, 0) -> fs_get f' n = fs_get (g_fs w) n) as PH.
+    { intros n Hn. apply KEEP. intros j zj m Hj NC Hm Emn. subst m.
+      destruct (N.eq_dec (x_dir zj) D) as [ED|ND'].
+      - destruct (x_state zj) eqn:St; [|congruence|].
+        + (* the live writer of that directory: its own documents are reachable *)
+          pose proof (sf_db0 _ _ Hj St) as SJ. destruct SJ. subst D.
+          destruct (sd_docs0 docs id dd G1 G2 Hh ND) as [c [Hc [A1 [A2 A3]]]].
+          destruct (gc_one_unreachable _ _ _ Hm) as [NR [ob [Hob Eob]]]. rewrite (reachable_live zj St) in NR.
+          specialize (sd_ko0 ob Hob). rewrite Eob in sd_ko0.
+          destruct Hn as [[Hn|Hn]|Hn].
+          * specialize (sd_kw0 c Hc). rewrite <- A2, Hn in sd_kw0. lia.
+          * apply NR. apply in_rn_parts. right. left. apply in_flat_map. exists c. split; [exact Hc|]. rewrite <- A3. exact Hn.
+          * rewrite Hn in sd_ko0. discriminate.
+        + apply (OK j zj n Hj ltac:(rewrite St; discriminate) Hm). right. exists id, D, docs, dd. repeat split; try assumption.
+          intros [x0 [Hx0 [L0 _]]]. rewrite Hj in Hx0. inversion Hx0; subst. congruence.
+      - apply (OK j zj n Hj NC Hm). right. exists id, D, docs, dd. repeat split; try assumption.
+        intros [x0 [Hx0 [_ D0]]]. rewrite Hj in Hx0. inversion Hx0; subst. congruence. }
+    split; [rewrite PH by auto; exact G1|]. split; [exact G2|].
+    intros n Hn. rewrite (fs_has_get _ _ _ (PH n (or_introl Hn))). apply G3. exact Hn.
+  - intros i j a b Ha Hb La Lb Eab. rewrite nth_error_map in Ha, Hb.
+    destruct (nth_error (g_dbs w) i) as [za|] eqn:Hza; [|discriminate]. destruct (nth_error (g_dbs w) j) as [zb|] eqn:Hzb; [|discriminate].
+    inversion Ha; inversion Hb; subst a b.
+    destruct (gc_obj_fields za) as [Da [Sa _]]. destruct (gc_obj_fields zb) as [Db [Sb _]].
+    apply (sf_writer0 i j za zb Hza Hzb); congruence.
+  - intros i a Ha La. rewrite nth_error_map in Ha. destruct (nth_error (g_dbs w) i) as [za|] eqn:Hza; [|discriminate]. inversion Ha; subst a.
+    destruct (gc_obj_fields za) as [Da [Sa _]]. rewrite Da. apply (sf_dirs0 _ _ Hza). congruence.
+  - exact sf_hdirs0.
+  - intros n docs dd Gn. apply (sf_kinds0 n docs dd). eapply fold_del_get_some. exact Gn.
+Qed.
+
+(* ------------------------------------------------------------------ every step, every history *)
+Lemma safe_init mem wm : Safe (init_world mem wm).
+Proof.
+  constructor; cbn [init_world g_fs g_dbs g_handles g_dropped g_nextdir].
+  - intros i x Hx L. destruct i as [|i]; [|destruct i; discriminate]. inversion Hx; subst x.
+    constructor; unfold recs; cbn; try (intros; contradiction); try constructor; try (intros; discriminate).
+  - intros id D [].
+  - intros i j x y Hx Hy _ _ _. destruct i as [|i]; [|destruct i; discriminate]. destruct j as [|j]; [reflexivity|destruct j; discriminate].
+  - intros i x Hx _. destruct i as [|i]; [|destruct i; discriminate]. inversion Hx; subst x. cbn. lia.
+  - intros id D [].
+  - intros n docs d H. discriminate.
+Qed.
+
+Theorem safe_step w o : Safe w -> step_ok w o -> Safe (step w o).
+Proof.
+  intros S OK. destruct o as [d k v rot|d k rot|d id|d|d r|d id|d ids|d ids f|d id f|d|nd id same ow nb|d|d| |d].
+  - apply safe_write. exact S.
+  - apply safe_write. exact S.
+  - apply safe_step_ckpt_call; assumption.
+  - apply safe_step_flush. exact S.
+  - apply safe_step_compact; assumption.
+  - cbn [step]. apply safe_step_ckpt; [exact S|]. intros x G. destruct (OK x G) as [L M]. split; [exact L|intros _; exact M].
+  - cbn [step]. apply safe_step_retain; [exact S|]. intros x G. destruct (OK x G) as [L M]. split; [exact L|intros _; exact M].
+  - cbn [step]. apply safe_step_retain; [exact S|exact OK].
+  - cbn [step]. apply safe_step_ckpt; [exact S|exact OK].
+  - apply safe_step_flush_fail. exact S.
+  - apply safe_step_restore; assumption.
+  - cbn [step]. destruct (get_db w d) as [x|] eqn:G; [|exact S]. eapply safe_unlive; [exact S|exact G|reflexivity|cbn; discriminate].
+  - cbn [step]. destruct (get_db w d) as [x|] eqn:G; [|exact S]. eapply safe_unlive; [exact S|exact G|reflexivity|cbn; discriminate].
+  - apply safe_step_gc; assumption.
+  - exact S.
+Qed.
+
+Theorem safe_run ops : forall w, Safe w -> run_ok w ops -> Safe (run w ops).
+Proof.
+  induction ops as [|o ops IH]; intros w S OK; [exact S|]. destruct OK as [O1 O2]. cbn [run fold_left].
+  apply IH; [apply safe_step; assumption|exact O2].
+Qed.
+
+(* retained_files_exist for every history whose deleting steps satisfy the monitor *)
+Theorem retained_files_exist_invariant mem wm ops :
+  run_ok (init_world mem wm) ops ->
+  let w := run (init_world mem wm) ops in
+  (forall id D, In (id, D) (g_handles w) -> ~ In id (g_dropped w) ->
+     exists docs d, fs_get (g_fs w) (D, 2, 0) = Some (FCk docs) /\ find_doc docs id = Some d /\
+                    fs_has (g_fs w) (dc_wal d) = true /\ forall t, In t (dc_tables d) -> fs_has (g_fs w) (td_name t) = true) /\
+  (forall i x t, nth_error (g_dbs w) i = Some x -> x_state x = Live -> In t (d_tables (x_core x)) -> fs_has (g_fs w) (t_name t) = true).
+Proof.
+  intros OK w. pose proof (safe_run ops _ (safe_init mem wm) OK) as S. fold w in S. split.
+  - intros id D Hh ND. destruct (sf_handles w S id D Hh ND) as [docs [d [G1 [G2 G3]]]]. exists docs, d. repeat split; try assumption.
+    + apply G3. left. reflexivity.
+    + intros t Ht. apply G3. right. apply in_map. exact Ht.
+  - intros i x t Hx L Ht. destruct (sf_db w S i x Hx L). apply sd_reach0. apply in_rn_parts. left. apply in_map. exact Ht.
+Qed.
+
+(* the D11 pattern - a table object CREATED by a DROPPED database object whose file another party still needs - is exactly a
+   way in which the monitor fails at a collection *)
+Theorem d11_pattern_violates_monitor w : d11_pattern w -> ~ gc_ok w.
+Proof.
+  intros [i [x [o [Hx [Dp [Ho [Cr P]]]]]]] OK. apply (OK i x (o_name o) Hx); [rewrite Dp; discriminate| |exact P].
+  unfold C09_Gc.gc_one. apply in_map. apply filter_In. split.
+  - apply filter_In. split; [exact Ho|]. unfold reachable_names. rewrite Dp. reflexivity.
+  - unfold cleanup_deletes. rewrite Cr. reflexivity.
+Qed.
